@@ -180,6 +180,48 @@ func runCheckOne(args []string) int {
 	}
 	var base Baseline
 	haveBase := loadJSON(filepath.Join(verifDir, "baseline", *prop+".json"), &base) == nil
+	if len(shapeFnAlias) > 0 {
+		// a function under contract was renamed: the baseline names its obligations by the old name
+		ren := func(n string) string {
+			for o, nw := range shapeFnAlias {
+				n = strings.ReplaceAll(n, o+"#", nw+"#")
+				n = strings.ReplaceAll(n, o+"$", nw+"$")
+				n = strings.ReplaceAll(n, "requires:"+o+":", "requires:"+nw+":")
+			}
+			return n
+		}
+		for i, n := range base.Claimed {
+			base.Claimed[i] = ren(n)
+		}
+		nu := map[string]string{}
+		for k, v := range base.Unclaimed {
+			nu[ren(k)] = v
+		}
+		base.Unclaimed = nu
+	}
+	if len(shapeRenames) > 0 {
+		// obligations of the sweep are named by source text: a renamed local renames them
+		ren := func(n string) string {
+			i := strings.Index(n, "#")
+			if i < 0 {
+				return n
+			}
+			m := shapeRenames[n[:i]]
+			j := strings.Index(n[i:], ":")
+			if m == nil || j < 0 || !isSweepName(n) {
+				return n
+			}
+			return n[:i+j+1] + renameIdents(n[i+j+1:], m)
+		}
+		for i, n := range base.Claimed {
+			base.Claimed[i] = ren(n)
+		}
+		nu := map[string]string{}
+		for k, v := range base.Unclaimed {
+			nu[ren(k)] = v
+		}
+		base.Unclaimed = nu
+	}
 	if base.Unclaimed == nil {
 		base.Unclaimed = map[string]string{}
 	}
@@ -227,6 +269,26 @@ func runCheckOne(args []string) int {
 			}
 		}
 	}
+	// a private helper that is new since the contracts were written and has no contract is not verified on its own (it is
+	// inlined where it is called, like the statements it was made of): its callers stand in for it
+	newHelper := func(fn *ssa.Function) bool {
+		n := funcName(fn)
+		return shapeNewFuncs[n] && V.contracts[n] == nil && fn.Object() != nil && !fn.Object().Exported() &&
+			instrCount(fn) <= maxInlineInstrs && !V.isRecursive(fn) && fn.Recover == nil && !V.noInline[n]
+	}
+	callersOf := func(callee *ssa.Function) []*ssa.Function {
+		var out []*ssa.Function
+		for _, g := range P.All {
+			for _, b := range g.Blocks {
+				for _, ins := range b.Instrs {
+					if ci, ok := ins.(ssa.CallInstruction); ok && ci.Common().StaticCallee() == callee {
+						out = append(out, g)
+					}
+				}
+			}
+		}
+		return out
+	}
 	if len(reqKeys) > 0 {
 		for _, fn := range P.All {
 			for _, b := range fn.Blocks {
@@ -236,12 +298,18 @@ func runCheckOne(args []string) int {
 						continue
 					}
 					cc := ci.Common()
+					hit := false
 					if callee := cc.StaticCallee(); callee != nil {
-						if reqKeys[funcName(callee)] {
-							get(fn)
-						}
+						hit = reqKeys[funcName(callee)]
 					} else if cc.IsInvoke() {
-						if reqKeys["iface:"+typeStr(cc.Value.Type())+"."+cc.Method.Name()] {
+						hit = reqKeys["iface:"+typeStr(cc.Value.Type())+"."+cc.Method.Name()]
+					}
+					if hit {
+						if newHelper(fn) {
+							for _, g := range callersOf(fn) {
+								get(g)
+							}
+						} else {
 							get(fn)
 						}
 					}
@@ -264,6 +332,11 @@ func runCheckOne(args []string) int {
 			get(fn).sweep = true
 		}
 		if matchAny(cfg.Lock, n) && !matchAny(cfg.LockExclude, n) {
+			// (a private helper that is new since the contracts were written and has no contract is not verified on its
+			// own - it would have to hold no lock at entry - but inlined where it is called, like the statements it was made of)
+			if newHelper(fn) {
+				continue
+			}
 			get(fn).lock = true
 		}
 	}
@@ -273,6 +346,9 @@ func runCheckOne(args []string) int {
 	}
 	var sel []*Obligation
 	notes := map[string]bool{}
+	for _, nt := range shapeNotes {
+		notes[nt] = true
+	}
 	var fnNames []string
 	vacuous := []string{}
 	genStart := time.Now()
@@ -341,11 +417,32 @@ func runCheckOne(args []string) int {
 	seen := map[string]bool{}
 	for _, o := range sel {
 		seen[o.Name] = true
+	}
+	// per function and sweep kind: how many obligations were undecided on the unchanged tree and are not accounted for by
+	// an obligation of the same name that is still undecided now
+	freeSlots := map[string]int{}
+	for n := range base.Unclaimed {
+		if isSweepName(n) {
+			freeSlots[sweepSlotKey(n)]++
+		}
+	}
+	for _, o := range sel {
+		if _, ok := base.Unclaimed[o.Name]; ok && o.Status != "unsat" && isSweepName(o.Name) {
+			freeSlots[sweepSlotKey(o.Name)]--
+		}
+	}
+	for _, o := range sel {
 		solverMs += o.Millis
-		kf, ok := knownBy[o.Name]
+		// (known findings are listed under the names the functions had when they were recorded)
+		oldName := o.Name
+		for ofn, nfn := range shapeFnAlias {
+			oldName = strings.ReplaceAll(oldName, nfn+"#", ofn+"#")
+			oldName = strings.ReplaceAll(oldName, "requires:"+nfn+":", "requires:"+ofn+":")
+		}
+		kf, ok := knownBy[oldName]
 		if !ok {
 			for i := range known {
-				if known[i].Property == *prop && known[i].Pattern != "" && matchAny([]string{known[i].Pattern}, o.Name) {
+				if known[i].Property == *prop && known[i].Pattern != "" && matchAny([]string{known[i].Pattern}, oldName) {
 					kf, ok = &known[i], true
 				}
 			}
@@ -373,6 +470,15 @@ func runCheckOne(args []string) int {
 			undecided = append(undecided, o.Name+" ("+why+")")
 			continue
 		}
+		// the sweep names its obligations by source text: an obligation of the same function and kind that takes the
+		// place of an undecided one that has vanished (the expression was reworded) is the same undecided obligation
+		if sweepKinds[o.Kind] {
+			if k := sweepSlotKey(o.Name); freeSlots[k] > 0 {
+				freeSlots[k]--
+				undecided = append(undecided, o.Name+" (takes the place of an obligation of the same function and kind that was undecided on the unchanged tree and is gone or decided now)")
+				continue
+			}
+		}
 		if *writeBaseline {
 			continue
 		}
@@ -388,8 +494,29 @@ func runCheckOne(args []string) int {
 		for n := range seen {
 			seenStem[occurrenceStem(n)] = true
 		}
+		// (likewise the enclosing-case tag: an if/else chain turned into a switch gives the obligations inside it an @case tag,
+		// and the reverse removes the tag of a name that had a single tagged variant)
+		seenUntagged := map[string]bool{}
+		for n := range seen {
+			if i := strings.Index(n, "@"); i > 0 {
+				seenUntagged[occurrenceStem(n[:i])] = true
+			}
+		}
+		taggedVariants := map[string]int{}
 		for _, n := range base.Claimed {
-			if !seen[n] && !isSweepName(n) && !(occurrenceStem(n) != n && seenStem[occurrenceStem(n)]) {
+			if i := strings.Index(n, "@"); i > 0 && occurrenceStem(n) == n {
+				taggedVariants[n[:i]]++
+			}
+		}
+		retagged := func(n string) bool {
+			st := occurrenceStem(n)
+			if i := strings.Index(st, "@"); i > 0 {
+				return taggedVariants[st[:i]] == 1 && seenStem[st[:i]]
+			}
+			return seenUntagged[st]
+		}
+		for _, n := range base.Claimed {
+			if !seen[n] && !isSweepName(n) && !(occurrenceStem(n) != n && seenStem[occurrenceStem(n)]) && !retagged(n) {
 				violations++
 				claimed++
 				path := writeReplayFile(*prop, n, "obligation missing: the function or clause under contract is no longer present in the tree (or the contract no longer attaches)", "")
@@ -614,6 +741,18 @@ var standingAssumptions = []string{
 	"external (non-rulio) functions write only memory directly reachable from their pointer/slice/map arguments and may call function-valued arguments",
 	"goroutines: spawned bodies' effects are not applied; channel operations are havoc points; sync.WaitGroup is a no-op",
 	"a callee that panics is not modelled as terminating the caller's path (over-approximates reachability)",
+}
+
+// sweepSlotKey: function and kind of a sweep obligation ("F#index:keys[i]" -> "F#index").
+func sweepSlotKey(n string) string {
+	i := strings.Index(n, "#")
+	if i < 0 {
+		return n
+	}
+	if j := strings.Index(n[i:], ":"); j >= 0 {
+		return n[:i+j]
+	}
+	return n
 }
 
 func isSweepName(n string) bool {
